@@ -424,7 +424,8 @@ Proof. cbv zeta. vm_compute. repeat split. Qed.
    file as the converter model's located declarations.  [j5s_walk R] is a FUNCTION of the syntax tree: the location
    tree, the declarations and every error position are computed from the input (tie: stream "walk", the whole
    location tree, kinds and sizes of the declarations and the error positions of every front-end text compared in Coq).
-   R = how a type reference resolves in the file's package (the only thing the file alone does not determine).
+   mkR = how a type reference resolves in the file's package, given the filled file (the only thing the file alone does
+   not determine; [resolve_in_file]: the file is alone in its package; [j5s_walk R]: a fixed resolver R).
    ================================================================================================== *)
 
 (* the parser never hands the walker a block without a type (parser.NewReference panics on it: C11's Panic site),
@@ -437,36 +438,36 @@ Print Assumptions C07_parser_block_types_nonempty.
 (* walker_returns for the instance: on every syntax tree of the parser the walker returns a file or positioned
    errors, or says "outside the model" (maps of containers, non-ASCII map keys, > 300-rune float literals, a oneof
    with two members set, the EntityObject name pattern: model/CmpbWalk.v header) *)
-Theorem C07_walker_returns : forall R body, body_refs_ok body = true ->
-  (exists w, j5s_walk R body = Ok w) \/ j5s_walk R body = Err E_UNMODELLED.
-Proof. exact j5s_walk_returns. Qed.
+Theorem C07_walker_returns : forall mkR body, body_refs_ok body = true ->
+  (exists w, j5s_walk_gen mkR body = Ok w) \/ j5s_walk_gen mkR body = Err E_UNMODELLED.
+Proof. exact j5s_walk_gen_returns. Qed.
 Print Assumptions C07_walker_returns.
 
 (* walker_contract for the instance: every span of the location tree and every reported position has both ends
    among the end points of the syntax tree's nodes (or the origin); error lists are not empty; every declaration's
    properties / methods lie below the declaration's node *)
-Theorem C07_walker_contract : forall R body w, j5s_walk R body = Ok w -> walk_out_ok' body w = true.
-Proof. exact j5s_walk_contract. Qed.
+Theorem C07_walker_contract : forall mkR body w, j5s_walk_gen mkR body = Ok w -> walk_out_ok' body w = true.
+Proof. exact j5s_walk_gen_contract. Qed.
 Print Assumptions C07_walker_contract.
 
 (* totality of the front end, for EVERY byte string and both parser modes, no hypothesis *)
-Theorem C07_front_end_total_j5s : forall R ff input,
-  (exists out, front_end (j5s_walk R) ff input = Ok out) \/ front_end (j5s_walk R) ff input = Err E_UNMODELLED.
+Theorem C07_front_end_total_j5s : forall mkR ff input,
+  (exists out, front_end (j5s_walk_gen mkR) ff input = Ok out) \/ front_end (j5s_walk_gen mkR) ff input = Err E_UNMODELLED.
 Proof. exact j5s_front_end_total. Qed.
 Print Assumptions C07_front_end_total_j5s.
 
-Theorem C07_front_end_errors_inside_file_j5s : forall R ff input st es,
-  front_end (j5s_walk R) ff input = Ok (FEErrors st es) ->
+Theorem C07_front_end_errors_inside_file_j5s : forall mkR ff input st es,
+  front_end (j5s_walk_gen mkR) ff input = Ok (FEErrors st es) ->
   es <> [] /\ Forall (fun sp => inside_bytes input (fst sp) /\ inside_bytes input (snd sp)) es.
 Proof.
-  intros R ff input st es H. split; [exact (proj1 (j5s_front_end_errors_positioned R ff input st es H))|
-                                     exact (j5s_front_end_errors_inside_bytes R ff input st es H)].
+  intros mkR ff input st es H. split; [exact (proj1 (j5s_front_end_errors_positioned mkR ff input st es H))|
+                                        exact (j5s_front_end_errors_inside_bytes mkR ff input st es H)].
 Qed.
 Print Assumptions C07_front_end_errors_inside_file_j5s.
 
 (* "for any source text ... descriptors or errors that carry a position inside the file; never panics or hangs",
    one file, closed: no walker hypothesis is left *)
-Definition C07_front_end_statement_j5s : Prop := forall R, j5s_front_end_statement R.
+Definition C07_front_end_statement_j5s : Prop := forall mkR, j5s_front_end_statement mkR.
 Theorem C07_front_end_j5s : C07_front_end_statement_j5s.
 Proof. exact j5s_front_end_statement_holds. Qed.
 Print Assumptions C07_front_end_j5s.
@@ -490,8 +491,12 @@ Example C07_example_front_end_j5s :
   /\ front_end (j5s_walk R) true (c07_src ["object Foo {"; "  field name strin"; "}"; ""]) = Ok (FEErrors SWalk [((1, 13)%Z, (1, 17)%Z)])
   /\ front_end (j5s_walk R) true (c07_src ["object Foo {"; "  field n integer"; "}"; ""]) = Ok (FEErrors SWalk [((1, 10)%Z, (0, 0)%Z)])
   /\ front_end (j5s_walk R) true (c07_src ["objec Foo {"; "}"; ""]) = Ok (FEErrors SWalk [((0, 0)%Z, (0, 4)%Z)])
-  /\ front_end (j5s_walk R) true (c07_src ["x = #"; ""]) = Ok (FEErrors SParse [((0, 4)%Z, (0, 4)%Z)]).
-Proof. cbv zeta. repeat split; vm_compute; reflexivity. Qed.
+  /\ front_end (j5s_walk R) true (c07_src ["x = #"; ""]) = Ok (FEErrors SParse [((0, 4)%Z, (0, 4)%Z)])
+  (* the file alone in its package: a reference to a declaration of the file converts, a reference to nothing is a
+     conversion error at the object keyword (the property's own node is virtual, see notes) *)
+  /\ (exists lf, front_end j5s_walk_alone true (c07_src ["object Foo {"; "  field bar object:Bar"; "}"; "object Bar {"; "}"; ""]) = Ok (FEConverted VOk lf))
+  /\ front_end j5s_walk_alone true (c07_src ["object Foo {"; "  field bar object:Baz"; "}"; ""]) = Ok (FEErrors SConvert [((0, 0)%Z, (0, 5)%Z)]).
+Proof. cbv zeta. repeat split; try (vm_compute; reflexivity). eexists. vm_compute. reflexivity. Qed.
 
 (* ---- "is accepted AND LINKS", over a model of the link step (round 3).  The converter-core theorems above use one
    predicate for linking (an extension's file is imported).  The cmpa family's model (J5sConvert.compile_package: convert
